@@ -32,6 +32,8 @@ structure World where
   signature of a cells id is fixed for the whole history (as its space is); formulas are read with
   the table in hand, so `sig` lines come before any formula -/
   sigs : List (CellId × Nat × List Val) := []
+  /-- `System._recalc_dependents` (`mx.set_recalc`) -/
+  recalc : Bool := false
 
 def World.cell? (w : World) (c : CellId) : Option CellDef :=
   (w.cells.find? (·.1 == c)).map (·.2)
@@ -176,6 +178,7 @@ def step (w : World) (line : String) : World × String :=
       ({ w with st := w.st.admin a, tracing := a.tracing w.tracing },
        if a == .getRecursion then s!"ok {w.env.maxdepth}" else "ok")
     | none => (w, "bad-op")
+  | ["recalc", b] => ({ w with recalc := b = "on" }, "ok")
   | ["maxdepth", n] => match n.toNat? with
     | some n => ({ w with maxdepth := n }, "ok")
     | none => (w, "bad-op")
@@ -230,6 +233,12 @@ def step (w : World) (line : String) : World × String :=
           match d.bind (args, []) with
           | none => (w, "err Type")
           | some key =>
+          if w.recalc then
+            -- recalculation option on: the former leaf dependents are evaluated at once
+            let (st', r) := w.st.setValueRecalc w.env (id, key) v
+            ({ w with st := st' }, match r with
+              | .ok => "ok" | .refused _ => "err NoneReturned" | .failed _ _ _ => "err Formula")
+          else
           let (st', e) := w.st.setValue w.env (id, key) v
           ({ w with st := st' }, match e with | none => "ok" | some _ => "err NoneReturned")
       | _, _ => (w, "bad-op")
